@@ -47,8 +47,8 @@ fn live_total() -> i64 {
 }
 
 fn main() {
-  rustdds::verif_hooks::c06::set_alloc_probe(allocated_total);
-  rustdds::verif_hooks::c06::set_live_probe(live_total);
+  rustdds::verif_hooks::util::set_alloc_probe(allocated_total);
+  rustdds::verif_hooks::util::set_live_probe(live_total);
   let args: Vec<String> = std::env::args().skip(1).collect();
   std::process::exit(rustdds::verif_hooks::main(&args));
 }
